@@ -90,7 +90,7 @@ class MaskedSel:
     @staticmethod
     def binop(ex, op, a, b):
         m = a.mask if isinstance(a, MaskedSel) else b.mask
-        if isinstance(a, MaskedSel) and isinstance(b, MaskedSel) and a.mask is not b.mask:
+        if isinstance(a, MaskedSel) and isinstance(b, MaskedSel) and not _same_mask(a.mask, b.mask):
             raise Unsupported("operation between selections with different masks")
         sa = a.src if isinstance(a, MaskedSel) else a
         sb = b.src if isinstance(b, MaskedSel) else b
@@ -255,12 +255,19 @@ def nd_getitem(ex, arr, key, prefer_vec=False):
     return r
 
 
+def _same_mask(a, b):
+    if a is b:
+        return True
+    na, nb = getattr(a, "neg_of", None), getattr(b, "neg_of", None)
+    return na is not None and na is nb
+
+
 def nd_setitem(ex, arr, key, v):
     if isinstance(key, NDArray) and key.dtype == "bool" and key.ndim == arr.ndim:
         me, _ = key.snapshot()
         if isinstance(v, MaskedSel):
-            if v.mask is not key:
-                # allow a mask that is provably the same array object negated twice etc.: require identity
+            if not _same_mask(v.mask, key):
+                # the same array object, or two negations of the same array object
                 raise Unsupported("masked assignment from a selection with a different mask object")
             src = as_ndarray(v.src)
             se, si = src.snapshot()
